@@ -573,13 +573,17 @@ func checkC12TwoHop(in c12Input) (msg, shape string, obs, exp interface{}) {
 	if !ok2 || t1 == normUnreserved(in.Base) || t2 == t1 || t2 == normUnreserved(in.Base) {
 		return
 	}
-	second := `{"swagger":"2.0","info":{"title":"second","version":"1"},"paths":{},` +
+	// (the second document also holds a path item, imported by the root, whose path-level parameters - the ones shared by its
+	// operations - refer to the third document: located from the document that contains the path item, like everything else)
+	second := `{"swagger":"2.0","info":{"title":"second","version":"1"},"paths":{"/q":{"parameters":[{"name":"s","in":"body","schema":{"$ref":"` + in.Hop2 + `#/definitions/y"}},` +
+		`{"$ref":"` + in.Hop2 + `#/parameters/shared"}],"get":{"responses":{"200":{"description":"d","schema":{"$ref":"` + in.Hop2 + `#/definitions/y"}}}}}},` +
 		`"parameters":{"q":{"name":"q","in":"body","schema":{"$ref":"` + in.Hop2 + `#/definitions/y"}}},` +
 		`"responses":{"r":{"description":"d","schema":{"$ref":"` + in.Hop2 + `#/definitions/y"}}},` +
 		`"definitions":{"y":{"type":"integer"}}}`
-	third := `{"definitions":{"y":{"type":"string","description":"third"}}}`
+	third := `{"definitions":{"y":{"type":"string","description":"third"}},"parameters":{"shared":{"name":"shared","in":"query","type":"string","description":"third"}}}`
 	root := `{"swagger":"2.0","info":{"title":"root","version":"1"},"definitions":{"y":{"type":"boolean"}},` +
-		`"paths":{"/p":{"get":{"parameters":[{"$ref":"` + in.Ref + `#/parameters/q"}],"responses":{"200":{"$ref":"` + in.Ref + `#/responses/r"}}}}}}`
+		`"paths":{"/p":{"get":{"parameters":[{"$ref":"` + in.Ref + `#/parameters/q"}],"responses":{"200":{"$ref":"` + in.Ref + `#/responses/r"}}}},` +
+		`"/q":{"$ref":"` + in.Ref + `#/paths/~1q"}}}`
 	var asked []string
 	loader := func(u string) (json.RawMessage, error) {
 		k := normUnreserved(stripFragment(u))
